@@ -81,7 +81,21 @@ def empty_history(I, args, kwargs):
     """defaultdict(list): every column is the empty list"""
     if len(args) == 1 and isinstance(args[0], Builtin) and args[0].name == "list":
         return HistVal({n: (z3.IntVal(0), lambda i: Fl(0)) for n in HIST})
+    if len(args) == 1 and isinstance(args[0], ClassRef) and args[0].name == "LimitOrderBook":
+        return fresh_books(I)
     raise Unsupported("defaultdict(%r)" % (args,))
+
+
+def fresh_books(I):
+    """defaultdict(LimitOrderBook) just created: no book exists; a row that is read is a fresh LimitOrderBook() - NaN : NaN, alive,
+    empty history (TRUSTED model of LimitOrderBook.__init__'s defaults; LimitOrderBook.update/terminate are verified separately)"""
+    cols = {}
+    for f in FL_COLS + ["time"]:
+        cols[f] = lambda k: Fl(z3.RealVal(0), TRUE)
+    cols["is_alive"] = lambda k: TRUE
+    hist = {n: ((lambda k: z3.IntVal(0)), (lambda k, i: Fl(z3.RealVal(0), TRUE))) for n in HIST}
+    return I.new_obj("objmap", "defaultdict", {"cols": cols, "dom": lambda k: FALSE, "rowcls": "LimitOrderBook", "total": True,
+                                               "hist": hist, "getattr_hook": hist_getattr, "setattr_hook": hist_setattr})
 
 
 def mk_full_exchange(I):
@@ -159,7 +173,9 @@ def event_fields(heap, ev):
     f = heap[ev.oid]
     mid = Fl((lift_fl(f["ask_price"]).v + lift_fl(f["bid_price"]).v) / 2,
              z3.simplify(z3.Or(lift_fl(f["ask_price"]).nan, lift_fl(f["bid_price"]).nan)))
-    return {"time": f["time"], "bid_price": f["bid_price"], "ask_price": f["ask_price"], "mid_price": mid,
+    # an event built before the clock is defined (TradingEnv.reset: EventNBBO(self.now(), ...) with now() None) carries no time:
+    # the time cell is read as "no value" (the NaN flag of the float domain)
+    return {"time": nanval() if f["time"] is None else f["time"], "bid_price": f["bid_price"], "ask_price": f["ask_price"], "mid_price": mid,
             "bid_size": f["bid_size"], "ask_size": f["ask_size"]}
 
 
@@ -332,7 +348,8 @@ class ProcessNBBO(Contract):
             Cl("history_prefix_kept", hist_prefix_kept(o, n, k, i)),
             PW("other_keys", lambda x: z3.Implies(x != k, z3.And(row_unchanged(o, n, x), hist_prefix_kept(o, n, x, i)))),
             PW("dead_stays_dead", lambda x: z3.Implies(z3.Not(o.alive(x)), z3.Not(n.alive(x)))),
-            Cl("last_update", same_fl(c.heap()[c.self.oid]["last_update"], ev["time"]) if c.heap()[c.self.oid]["last_update"] is not None else FALSE),
+            Cl("last_update", z3.BoolVal(c.heap()[c.self.oid]["last_update"] is None) if ev["time"] is None else
+               (same_fl(c.heap()[c.self.oid]["last_update"], ev["time"]) if c.heap()[c.self.oid]["last_update"] is not None else FALSE)),
         ]
 
     def witness(self, c):
